@@ -82,6 +82,8 @@ def worker_main(argv):
                 if case is None:
                     i += nshards
                     continue
+                if isinstance(case, dict):
+                    case.setdefault('index', i)
                 res = prop.run_case(case)
             except Exception as e:
                 import traceback
@@ -242,6 +244,8 @@ def real_mount_crosscheck(prop, pid, tier, seed, results, n, kind='real'):
     items = []
     for r in picks:
         case = prop.gen_case(case_rng(pid, seed, r['i']), r['i'], tier)
+        if isinstance(case, dict):
+            case.setdefault('index', r['i'])
         if case is not None:
             items.append({'i': r['i'], 'case': case})
     inp = os.path.join(OUT, 'work', '%s-%s-%d.in.json' % (kind, pid, os.getpid()))
